@@ -21,7 +21,7 @@ EXPLANATION = (
     "else the spending in the instructions), relative and absolute bounds are taken from the adjustables, and UnresolvableConstraint is raised exactly when sum(lb) > total or sum(ub) < total. constrain_instructions writes amounts that meet bounds and total or raises. "
     "SpendingPackageAdjustment keeps every member's share within [min, max] proportion and the package total within its limits; PairedLinearSpendingAdjustment conserves the pair's total and keeps both non-negative. Bounds: 2-3 programs, one constrained year; s = 0 is outside (NaN bounds)."
 )
-GROUP_TIMEOUT = {"quick": 900, "thorough": 3000}
+GROUP_TIMEOUT = {"quick": 1800, "thorough": 3600}
 VMAX = 1e6
 
 
